@@ -211,6 +211,52 @@ def check(ctx):
     # in every mode (otherwise the run depends on the mode: silent never asks for the rank)
     share(ctx, 'C12', 'R4/C12.', ['R4.'])
 
+    # ---------------------------------------------------------------- R6 writing a checkpoint cannot throw
+    # serialize() runs only in the two writing modes: a std::string operation with a position argument
+    # (substr / at / erase / replace / insert / compare) throws std::out_of_range when the position
+    # exceeds the size - e.g. a position taken from find*() is npos for an empty or unmatched name
+    from .. import sergram
+    THROWING = ('substr', 'at', 'erase', 'replace', 'insert', 'compare', 'copy')
+    nser = 0
+    for base in sergram.SERIALISED:
+        for f in p.find(base + '::serialize'):
+            nser += 1
+            ctx.analysed(f)
+
+            def r6(f=f, base=base):
+                opq = set(x + '::serialize' for x in sergram.SERIALISED if x != base)
+                s, ex = summarise(p, f, opaque=opq)
+                bad = []
+                unk = []
+                for e, l in flat_effects(s.effects):
+                    terms = [v for v in e.values() if isinstance(v, tuple)] + \
+                            [x for v in e.values() if isinstance(v, (list,)) for x in v if isinstance(x, tuple)]
+                    for t0 in terms:
+                        for t in T.subterms(t0):
+                            if isinstance(t, tuple) and len(t) >= 4 and t[0] == 'strop' and t[1] in THROWING:
+                                pos = t[3]
+                                if pos == T.ZERO:
+                                    continue
+                                if any(isinstance(x, tuple) and x and x[0] == 'strop' and str(x[1]).startswith(('find', 'rfind'))
+                                       for x in T.subterms(pos)):
+                                    bad.append((e.get('where'), t))
+                                else:
+                                    unk.append((e.get('where'), t))
+                w = fsite(f)
+                if bad:
+                    ctx.violation('R6.serialize_cannot_throw', '%s:%s' % (bad[0][0] or w, f.name), '%s(...) is called with a '
+                                  'position that comes from a find operation and is npos when nothing is found (e.g. '
+                                  'an empty name): std::out_of_range aborts the run in the writing modes only'
+                                  % bad[0][1][1], {'call': T.pretty(bad[0][1])[:200]})
+                elif unk:
+                    raise AnalysisBroken('%s: cannot show that the position of %s is within the string'
+                                         % (unk[0][0], T.pretty(unk[0][1])[:120]))
+                else:
+                    ctx.holds('R6.serialize_cannot_throw', w, 'no string operation with a position argument that '
+                              'could exceed the size')
+            ctx.guard('R6', fsite(f), r6)
+    ctx.count('serialize functions checked for throwing string operations', nser, 11)
+
     # ---------------------------------------------------------------- R5 printing stays in range
     # every checked element access (.at / .front / .back) made while printing must be in range for
     # every state a run can reach: an exception in a verbose mode aborts a run that the silent
